@@ -5,6 +5,8 @@ TRANSLATORS = [
     ("Grammar.lean", ["gramdump"]),
     ("MemoryFacts.lean", ["memfacts"]),
     ("LexFacts.lean", ["lexfacts"]),
+    ("ConcFacts.lean", ["concfacts"]),
+    ("ErrFacts.lean", ["errfacts"]),
 ]
 
 
